@@ -133,19 +133,23 @@ type Engine struct {
 	// scalarLoopsOnce: loops ranging over a slice or array of strings/numbers are unrolled once whatever the loop bound
 	scalarLoopsOnce bool
 	// cloneFresh: bytes.Clone/slices.Clone yield a distinct value (for rules about aliasing rather than about values)
-	cloneFresh bool
-	funcByName map[string]*ssa.Function
-	out        []Summary
-	root       *ssa.Function
-	opaque     map[string]bool                 // canonical callee names never inlined
-	globalInit map[string]*Term                // initial values of package-level variables that are never reassigned after init (key: gaddr term key)
-	uniqueImpl func(*types.Func) *ssa.Function // the single production implementation of an interface method in the module, if any
-	maxRec     int                             // how many recursive activations of one function may be inlined
-	stub       map[string][]*Term              // callee -> fixed results (composition with an outcome class of the callee)
-	hofMethod  map[string]string               // higher-order callee taking an interface value -> the method of it that is run
-	hof        map[string]int                  // opaque higher-order callee -> index of the function argument it runs (modelled as one synchronous call)
-	bind       map[string]*Term                // term key -> replacement (composition presets)
-	stats      struct{ paths, pruned, loopcut int }
+	cloneFresh     bool
+	funcByName     map[string]*ssa.Function
+	out            []Summary
+	root           *ssa.Function
+	opaque         map[string]bool                           // canonical callee names never inlined
+	globalInit     map[string]*Term                          // initial values of package-level variables that are never reassigned after init (key: gaddr term key)
+	ifaceFlow      func(types.Type) (types.Type, types.Type) // devirt.go
+	fieldFunc      func(ssa.Value) *ssa.Function             // devirt.go
+	variadicUnused func(*ssa.Function) bool                  // devirt.go
+	fieldConst     func(*ssa.FieldAddr) *ssa.Const           // devirt.go
+	uniqueImpl     func(*types.Func) *ssa.Function           // the single production implementation of an interface method in the module, if any
+	maxRec         int                                       // how many recursive activations of one function may be inlined
+	stub           map[string][]*Term                        // callee -> fixed results (composition with an outcome class of the callee)
+	hofMethod      map[string]string                         // higher-order callee taking an interface value -> the method of it that is run
+	hof            map[string]int                            // opaque higher-order callee -> index of the function argument it runs (modelled as one synchronous call)
+	bind           map[string]*Term                          // term key -> replacement (composition presets)
+	stats          struct{ paths, pruned, loopcut int }
 }
 
 func (e *Engine) inModule(fn *ssa.Function) bool {
@@ -213,8 +217,12 @@ func (e *Engine) Explore(root *ssa.Function) []Summary {
 	e.out = nil
 	e.root = root
 	fr := &frame{fn: root, env: map[ssa.Value]*Term{}, ctx: "", block: root.Blocks[0], visits: map[int]int{}}
-	for _, p := range root.Params {
+	for i, p := range root.Params {
 		fr.env[p] = e.rebind(mk("param", p.Name(), 0, p.Type()))
+		// variadic options that no production caller passes (New(opts, options...)): the root is explored as production calls it
+		if root.Signature.Variadic() && i == len(root.Params)-1 && e.variadicUnused != nil && e.variadicUnused(root) {
+			fr.env[p] = mk("nil", "", 0, p.Type())
+		}
 	}
 	for _, fv := range root.FreeVars {
 		fr.env[fv] = e.rebind(mk("freevar", fv.Name(), 0, fv.Type()))
@@ -774,7 +782,8 @@ func (e *Engine) mkDeferred(s *state, fr *frame, c *ssa.CallCommon, pos token.Po
 	}
 	switch {
 	case c.IsInvoke():
-		d.callee = c.Method.FullName()
+		d.callee = ifaceMethodName(c.Value.Type(), c.Method)
+		declared := d.callee
 		d.recv = e.val(s, fr, c.Value)
 		d.args = args
 		// devirtualise when the receiver's dynamic type is known
@@ -801,14 +810,45 @@ func (e *Engine) mkDeferred(s *state, fr *frame, c *ssa.CallCommon, pos token.Po
 					if _, isNamed := rt.(*types.Named); isNamed {
 						if obj, _, _ := types.LookupFieldOrMethod(rt, false, c.Method.Pkg(), c.Method.Name()); obj != nil {
 							if mf, ok := obj.(*types.Func); ok {
-								d.callee = mf.FullName()
+								d.callee = ifaceMethodName(rt, mf)
 							}
 						}
 					}
 				}
 			}
+			// (c) a module interface that only narrows another interface, or only ever holds one concrete type (devirt.go)
+			if d.callee == declared && !knownIfaceMethods[declared] && e.ifaceFlow != nil {
+				j := c.Value.Type()
+				for hop := 0; hop < 4; hop++ {
+					from, conc := e.ifaceFlow(j)
+					if from != nil {
+						if obj, _, _ := types.LookupFieldOrMethod(from, false, c.Method.Pkg(), c.Method.Name()); obj != nil {
+							if mf, ok := obj.(*types.Func); ok {
+								d.callee = ifaceMethodName(from, mf)
+								j = from
+								continue
+							}
+						}
+					}
+					if conc != nil {
+						if m := e.prog.LookupMethod(conc, c.Method.Pkg(), c.Method.Name()); m != nil {
+							d.sfn = m
+							d.callee = funcName(m)
+							if e.inModule(m) && !e.opaque[d.callee] {
+								d.fn = m
+								if _, isPtr := m.Signature.Recv().Type().(*types.Pointer); !isPtr {
+									if pt, ok := conc.(*types.Pointer); ok {
+										d.recv = e.load(s, d.recv, pt.Elem())
+									}
+								}
+							}
+						}
+					}
+					break
+				}
+			}
 			// (b) an interface with exactly one production implementation in the module is that implementation
-			if d.callee == c.Method.FullName() && e.uniqueImpl != nil {
+			if d.sfn == nil && d.callee == declared && e.uniqueImpl != nil {
 				if m := e.uniqueImpl(c.Method); m != nil {
 					d.sfn = m
 					d.callee = funcName(m)
@@ -849,6 +889,14 @@ func (e *Engine) mkDeferred(s *state, fr *frame, c *ssa.CallCommon, pos token.Po
 		switch ft.Kind {
 		case "closure", "func":
 			fn = e.funcByName[ft.Name]
+		case "field":
+			// a function-valued field whose only production value is one named function (devirt.go)
+			if e.fieldFunc != nil {
+				if f := e.fieldFunc(c.Value); f != nil {
+					fn = f
+					ft = mk("func", f.String(), 0, c.Value.Type())
+				}
+			}
 		}
 		if fn != nil {
 			d.sfn = fn
@@ -1390,6 +1438,27 @@ func (e *Engine) load(s *state, addr *Term, typ types.Type) *Term {
 		if v, ok := e.globalInit[addr.key]; ok {
 			return v
 		}
+		// a package-level structure whose fields are only assigned by its initialiser (var def = T{Name: "…"}): the cells
+		// recorded below it; fields without a recorded cell stay symbolic
+		if typ != nil {
+			if st, ok := typ.Underlying().(*types.Struct); ok {
+				g := mk("global", addr.Name, 0, typ)
+				var fvs []*Term
+				found := false
+				for i := 0; i < st.NumFields(); i++ {
+					f := st.Field(i)
+					if cv, ok := e.globalInit[mk("faddr", f.Name(), 0, nil, addr).key]; ok {
+						fvs = append(fvs, mk("fieldval", f.Name(), 0, nil, cv))
+						found = true
+					} else {
+						fvs = append(fvs, mk("fieldval", f.Name(), 0, nil, mk("field", f.Name(), 0, f.Type(), g)))
+					}
+				}
+				if found && e.bind[g.key] == nil {
+					return mk("structval", typeStr(typ), 0, typ, fvs...)
+				}
+			}
+		}
 		return e.rebind(mk("global", addr.Name, 0, typ))
 	case "faddr":
 		base := addr.Args[0]
@@ -1514,7 +1583,16 @@ func (e *Engine) eval(s *state, fr *frame, v ssa.Value) *Term {
 		a := e.val(s, fr, x.X)
 		switch x.Op {
 		case token.MUL:
-			return e.load(s, a, x.Type())
+			v := e.load(s, a, x.Type())
+			if v != nil && v.Kind == "field" && e.fieldConst != nil {
+				// a field read through an unknown receiver whose only production value is one constant (devirt.go)
+				if fa, ok := x.X.(*ssa.FieldAddr); ok {
+					if c := e.fieldConst(fa); c != nil {
+						return e.val(s, fr, c)
+					}
+				}
+			}
+			return v
 		case token.NOT:
 			if a.Kind == "unop" && a.Name == "!" {
 				return a.Args[0]
